@@ -59,10 +59,13 @@ def registry_replay(ctx):
     res = json.loads(pr.stdout)
     if res["histories"] != ar["distinct"]:
         raise vlib.ToolError("replayed %d histories, TLC found %d states" % (res["histories"], ar["distinct"]))
-    for mm in (res["mismatches"] or [])[:2]:
-        if len(ctx.violations) < 3:
-            ctx.violation("annotation index (TypeAssociationRegistry / TypesMap) after %s: %s = %s, the specification says %s"
-                          % (mm["history"], mm["query"], mm["observed"], mm["expected"]), {"kind": "registry", "scenario": mm})
+    for mm in (res["mismatches"] or []):
+        text = "annotation index (TypeAssociationRegistry / TypesMap) after %s: %s = %s, the specification says %s" % (
+            mm["history"], mm["query"], mm["observed"], mm["expected"])
+        if not mm.get("used", True):
+            ctx.note(text + " (this query is not consulted by the checkers)")
+        elif len(ctx.violations) < 3:
+            ctx.violation(text, {"kind": "registry", "scenario": mm})
     return res
 
 
